@@ -332,6 +332,26 @@ def roundAmount (dflt : Rounding) (a : Rat) (isDec : Bool) (n : Int) : Rat :=
 def qtyRound (s : QState) (dflt : Rounding) (a : Qty) (isDec : Bool) (n : Int) : Except Err Qty :=
   s.reg.mkQty dflt (some (s.reg.unitCls a.unit)) (roundAmount dflt a.amount isDec n) a.unit
 
+/-- operators between a quantity and a plain number (either order): `+`, `-`
+and the order comparisons find no implementation on either side (both return
+`NotImplemented`) → TypeError; `==` is False, `!=` True. -/
+inductive MixOp where | add | radd | sub | rsub | lt | le | gt | ge | eq | ne
+  deriving DecidableEq, Repr, Inhabited
+
+def qtyVsNumber (op : MixOp) : Except Err Bool :=
+  match op with
+  | .eq => .ok false
+  | .ne => .ok true
+  | _ => .error .TypeError
+
+/-- `utils.sum(items)` without start value: left fold of `+` (0 when empty) -/
+def qtySum (s : QState) (dflt : Rounding) : List Qty → Except Err (Option Qty)
+  | [] => .ok none
+  | x :: rest => rest.foldl (fun acc y => acc.bind fun a =>
+      match a with
+      | some q => (s.qtyAddSub dflt 1 q y).map some
+      | none => .ok none) (.ok (some x))
+
 /-- reference value (amount in the reference unit), when the class has one -/
 def refValue (s : QState) (a : Qty) : Option Rat :=
   if (s.reg.cls (s.reg.unitCls a.unit)).refUnit.isSome then
